@@ -70,7 +70,10 @@ pub struct PointCloud {
 impl PointCloud {
     pub(crate) fn vec_from_document(document: &Document) -> Result<Vec<Self>> {
         let mut pointclouds = Vec::new();
-        if let Some(data3d_node) = document.descendants().find(|n| n.is_e57_tag("data3D")) {
+        if let Some(data3d_node) = document
+            .root_element()
+            .children()
+            .find(|n| n.is_e57_tag("data3D")) {
             for n in data3d_node.children() {
                 if n.is_e57_tag("vectorChild") && n.attribute("type") == Some("Structure") {
                     let pointcloud = Self::from_node(&n)?;
